@@ -9,16 +9,30 @@
 
   Full statement (properties.jsonl):
       forall sources of the subset, register sizes:  sim(basm(src)) ~ ref_interp(src) on all outputs
-  kept visible below as `C05_full`.  What is proved:
-    * `label_after_entry_removal`, `opcode_index_stable` — the two whole-program interactions the
-      property names (removing the `entry` line shifts every later address; opcode numbers depend
-      on the sorted set of opcodes of the whole section);
-    * `mov_matcher_effect`, `step_correct`, `assemble_correct_partial` — lock-step simulation
-      between the reference interpreter on the source and `Isa.step` on the assembled ROM, per
-      processor, under an arbitrary environment on its ports; PARTIAL: for the unchanged tree it
-      needs `entryFirst` (the entry label is on the first instruction) — `entry_ignored` is the
-      counterexample showing the hypothesis cannot be dropped there;
-    * `entry_honoured_example` — the same source under the repaired pipeline starts at the label.
+  stated per processor as `def C05_full : Prop` and PROVED as `assemble_correct : C05_full` for the
+  pipeline as it is in /repo since ad3d184 / 66563a4 (`assemble src true`): no hypothesis beyond
+  `assemble src true = .ok bm`.  What is proved:
+    * `label_after_entry_removal`, `addr_shift`, `opcode_index_stable` — the whole-program
+      interactions the property names (removing the `entry` line shifts every later address; opcode
+      numbers depend on the sorted set of opcodes of the whole section);
+    * `mov_matcher_effect` — every source form (22 `matchLine` alternatives, blocking ones included):
+      one `Isa.exec` of the assembled word = the reference effect of the *source* line;
+    * `step_correct` — lock step for one tick over an abstract `Layout` (address shift δ);
+      `layout_of_pipelines` — both pipelines produce such a layout (δ = 0 / δ = `entryDelay`);
+    * `assemble_correct` — every accepted source, every processor, every environment stream, every
+      number of ticks: the simulator on the assembled ROM, started at address 0, does what the
+      reference interpreter, started at the `entry` label, does on the section's text (program
+      counter through the address map, registers, outputs, output-valid and input-recv flags);
+      one extra tick at the start and addresses one higher exactly when the entry label is not on
+      the first instruction; blocking i2rw / r2owa included (the reference waits where the
+      handshake makes the processor wait);
+    * `assemble_correct_entry_first` + `entry_ignored` — the pipeline of the unchanged tree: the same
+      statement under `entryFirst`, and the counterexample showing it cannot be dropped there;
+    * `network_component`, `network_correct` — the multi-processor network reference (`netRun`) is
+      the product of the per-processor references under the environments the bonds induce, and
+      every assembled processor implements its component.
+  Not proved: that `bondmachine.VM.Step` moves data between processors as `envFor` says (C02 / C04;
+  compared per tick by the whole-machine tie), and the concrete-syntax layer (`BasmText.parseSource`).
 -/
 import BMV.Proofs.Basm
 import BMV.Proofs.BasmSem
@@ -71,38 +85,46 @@ theorem opcode_index_stable (rsize : Nat) (rs : List RLine) (cp : CP) (h : mkCP 
 
 /-! ### meaning: the reference interpreter and the simulator in lock step -/
 
-/-- what is observable of a processor: where it is, its registers, its output ports -/
-structure ObsEq (a : Arch) (ls : List Line) (r : RefState) (vm : VmState) : Prop where
-  pc : vm.pc = addr ls r.pos
+/-- what is observable of a processor: where it is (`δ` = the address shift of the layout), its
+    registers, its output ports with their valid flags, the recv flags of its input ports -/
+structure ObsEq (a : Arch) (ls : List Line) (δ : Nat) (r : RefState) (vm : VmState) : Prop where
+  pc : vm.pc = δ + addr ls r.pos
   regs : ∀ k, k < 2 ^ a.r → vm.regs[k]? = some (r.regs k)
   outs : ∀ k, k < a.m → vm.outputs[k]? = some (r.outputs k)
+  outValid : ∀ k, k < a.m → vm.outValid[k]? = some (r.outValid k)
+  inRecv : ∀ k, k < a.n → vm.inRecv[k]? = some (r.inRecv k)
 
-/-- THE FULL STATEMENT (C05, per processor): for every accepted source, every processor `i`, the
-    section `sec` its `cpdef` names: whatever the reference interpreter does on `sec`'s text under
-    an environment stream, the assembled machine's processor does — same program counter, same
-    registers, same outputs, after every tick.  (Inter-processor composition through bonds is
-    C02 / C04.) -/
-def C05_full (fix : Bool) : Prop :=
-  ∀ (src : Source) (bm : BM), assemble src fix = .ok bm →
+/-- the environment stream the simulator sees: the reference interpreter's, preceded — when the
+    first tick is spent on the jump at address 0 — by one arbitrary tick `e0` -/
+def entryEnv (ls : List Line) (e0 : Env) (env : Nat → Env) : Nat → Env :=
+  if entryDelay ls = 1 then delayEnv e0 env else env
+
+/-- THE FULL STATEMENT (C05, per processor, the pipeline as it is in /repo since ad3d184 /
+    66563a4): for every accepted source of the subset, every register size, every processor `i`,
+    the section `sec` its `cpdef` names, every environment on its ports and every number of ticks:
+    whatever the reference interpreter — started at the `entry` label — does on `sec`'s text, the
+    assembled machine's processor — started at ROM address 0 — does: same program counter (through
+    the address map), registers, outputs, output-valid and input-recv flags, after every tick.
+    When the entry label is not on the first instruction the simulator needs one extra tick at the
+    beginning (the jump the assembler placed at address 0) and every address is one higher.
+    Blocking `iomode:sync` transfers are included: where the handshake makes the processor wait,
+    the reference interpreter waits.  (Composition of processors through bonds is C02 / C04.) -/
+def C05_full : Prop :=
+  ∀ (src : Source) (bm : BM), assemble src true = .ok bm →
     ∀ (i : Nat) (c : CpDef) (cp : CP), src.procs[i]? = some c → bm.cps[i]? = some cp →
       ∃ sec ∈ src.sections, sec.name = c.romcode ∧
-        ∀ (env : Nat → Env) (t : Nat) (r : RefState), refRun (SecCtx.of src sec) env t = some r →
-          ∃ vm, isaRun cp.arch cp.prog env (t + (if fix && !entryFirst sec.lines then 1 else 0)) = some vm ∧
-            ObsEq cp.arch sec.lines r vm
-
-/-- the real instructions of a section are non-blocking (no i2rw / r2owa, no `mov` from / to a
-    port under `iomode:sync`) -/
-def NonBlocking (src : Source) (sec : Section) : Prop :=
-  ∀ rs, prepSection false src.iomode sec = .ok rs → ∀ r ∈ rs, r.op ≠ "i2rw" ∧ r.op ≠ "r2owa"
+        ∀ (e0 : Env) (env : Nat → Env) (t : Nat) (r : RefState), refRun (SecCtx.of src sec) env t = some r →
+          ∃ vm, isaRun cp.arch cp.prog (entryEnv sec.lines e0 env) (t + entryDelay sec.lines) = some vm ∧
+            ObsEq cp.arch sec.lines (entryDelay sec.lines) r vm
 
 /-- MATCHER EFFECT: a source line, the real instruction `matchLine` chose for it (for `mov`:
-    rset / cpy / i2r / r2o by operand kinds and iomode), its assembled word: one `Isa.exec` of the
-    word does to the simulator state exactly what the reference interpreter does to the reference
-    state for the source line — including where execution continues (`A` = position ↦ address). -/
+    rset / cpy / i2r / i2rw / r2o / r2owa by operand kinds and iomode), its assembled word: one
+    `Isa.exec` of the word does to the simulator state exactly what the reference interpreter does
+    to the reference state for the source line — including where execution continues (`A` =
+    position ↦ address) and including the handshake state of the blocking forms. -/
 theorem mov_matcher_effect (a : Arch) (c : SecCtx) (e : Env) (A : Nat → Nat) (plen : Nat) (l : Line) (op : String)
     (args : List Arg) (tbl : List (String × Nat)) (w : Bits) (r r' : RefState) (vm : VmState)
     (hm : matchLine c.mode l = some (op, args))
-    (hasync : op ≠ "i2rw" ∧ op ≠ "r2owa")
     (hasm : Encode.asm a ⟨op, args.map (resolveArg tbl)⟩ = .ok w)
     (hmode : a.mode = .ha) (hrs : a.rsize = c.rsize)
     (hsim : Sim a e A r vm)
@@ -110,33 +132,100 @@ theorem mov_matcher_effect (a : Arch) (c : SecCtx) (e : Env) (A : Nat → Nat) (
     (hlab : ∀ t p v, labelPos c.lines t = some p → lookup tbl t = some v → v = A p ∧ v < plen)
     (hex : execLine c e l r = some r') :
     ∃ vm', Isa.exec a plen op (w.drop a.opBits) vm = some vm' ∧ Sim a e A r' vm' ∧ PosNext c r r' :=
-  exec_matches hm hasync hasm hmode hrs hsim hnext hlab hex
+  exec_matches hm hasm hmode hrs hsim hnext hlab hex
 
-/-- LOCK STEP, one tick, on the ROM the unchanged pipeline assembles for a section -/
-theorem step_correct (c : SecCtx) (rs : List RLine) (a : Arch) (ws : List Bits) (e : Env) (r r' : RefState) (vm : VmState)
-    (hA : Assembled c rs a ws) (hsim : Sim a e (addr c.lines) r vm) (hpos : PosOk c.lines r.pos)
-    (hex : refStep c e r = some r') :
-    ∃ vm', Isa.step a ws vm = some vm' ∧ Sim a e (addr c.lines) r' vm' ∧ PosOk c.lines r'.pos :=
+/-- LOCK STEP, one tick, on the ROM assembled for a section with address shift `δ` -/
+theorem step_correct (c : SecCtx) (rs : List RLine) (a : Arch) (ws : List Bits) (δ : Nat) (e : Env) (r r' : RefState)
+    (vm : VmState) (hA : Assembled c rs a ws δ) (hsim : Sim a e (fun p => δ + addr c.lines p) r vm)
+    (hpos : PosOk c.lines r.pos) (hex : refStep c e r = some r') :
+    ∃ vm', Isa.step a ws vm = some vm' ∧ Sim a e (fun p => δ + addr c.lines p) r' vm' ∧ PosOk c.lines r'.pos :=
   step_correct_aux hA hsim hpos hex
 
-/-- AN ASSEMBLED PROGRAM MEANS WHAT ITS SOURCE SAYS — PARTIAL.  `C05_full false` restricted by two
-    hypotheses: `entryFirst` (the entry label is on the first instruction of the section: without
-    it the statement is false on the unchanged tree, see `entry_ignored`) and `NonBlocking` (the
-    blocking i2rw / r2owa handshakes are not covered by the proof; they are covered by the per-tick
-    tie of tools/props/c05.py).  Everything else is as in the full statement: every source of the
-    subset, every register size, every environment stream, every number of ticks. -/
-theorem assemble_correct_partial (src : Source) (bm : BM) (h : assemble src false = .ok bm)
+/-- the two pipelines lay a section out as the lock-step proof needs (`Layout`): the unchanged one
+    with no shift, the repaired one with `entryDelay` -/
+theorem layout_of_pipelines (c : SecCtx) (ls' : List Line) (rs : List RLine) (hnd : hasDup (allLabels c.lines) = false)
+    (hml : matchLines c.mode ls' = .ok rs) :
+    (removeEntry c.lines = .ok ls' → Layout c rs 0) ∧ (removeEntryFix c.lines = .ok ls' → Layout c rs (entryDelay c.lines)) :=
+  ⟨fun h => layout_unfixed h hml hnd, fun h => (layout_fixed h hml hnd).1⟩
+
+theorem obs_of_stsim {a : Arch} {ls : List Line} {δ : Nat} {r : RefState} {vm : VmState}
+    (h : StSim a (fun p => δ + addr ls p) r vm) : ObsEq a ls δ r vm :=
+  ⟨h.pc, fun _ hk => h.regs.get hk, fun _ hk => h.outs.get hk, fun _ hk => h.ov.get hk, fun _ hk => h.ir.get hk⟩
+
+/-- AN ASSEMBLED PROGRAM MEANS WHAT ITS SOURCE SAYS: the full statement, for the repaired
+    pipeline.  No hypothesis beyond `assemble src = .ok bm`. -/
+theorem assemble_correct : C05_full := by
+  intro src bm h i c cp hc hcp
+  obtain ⟨sec, hsec, hname, rs, hA, hside⟩ := assembled_of_assemble_fix h hc hcp
+  refine ⟨sec, hsec, hname, ?_⟩
+  intro e0 env t r hr
+  rcases hside with ⟨hd, hz⟩ | ⟨hd, s, hj, hstart⟩
+  · rw [hd] at hA
+    obtain ⟨vm, hvm, hst, _⟩ := run_correct_zero hA hz env t r hr
+    refine ⟨vm, ?_, ?_⟩
+    · simp only [entryEnv, hd]; exact hvm
+    · rw [hd]; exact obs_of_stsim hst
+  · rw [hd] at hA
+    obtain ⟨vm, hvm, hst, _⟩ := run_correct_one hA hj hstart e0 env t r hr
+    refine ⟨vm, ?_, ?_⟩
+    · simp only [entryEnv, hd]; exact hvm
+    · rw [hd]; exact obs_of_stsim hst
+
+/-- the same for the pipeline of the unchanged tree (`entry` recorded and ignored), where it
+    holds: sources whose entry label is on the first instruction.  `entry_ignored` below shows the
+    hypothesis cannot be dropped there. -/
+theorem assemble_correct_entry_first (src : Source) (bm : BM) (h : assemble src false = .ok bm)
     (i : Nat) (c : CpDef) (cp : CP) (hc : src.procs[i]? = some c) (hcp : bm.cps[i]? = some cp) :
     ∃ sec ∈ src.sections, sec.name = c.romcode ∧
-      (entryFirst sec.lines = true → NonBlocking src sec →
+      (entryFirst sec.lines = true →
         ∀ (env : Nat → Env) (t : Nat) (r : RefState), refRun (SecCtx.of src sec) env t = some r →
-          ∃ vm, isaRun cp.arch cp.prog env t = some vm ∧ ObsEq cp.arch sec.lines r vm) := by
-  obtain ⟨sec, hsec, hname, rs, hprep, hass⟩ := assembled_of_assemble h hc hcp
+          ∃ vm, isaRun cp.arch cp.prog env t = some vm ∧ ObsEq cp.arch sec.lines 0 r vm) := by
+  obtain ⟨sec, hsec, hname, rs, hA⟩ := assembled_of_assemble h hc hcp
   refine ⟨sec, hsec, hname, ?_⟩
-  intro hentry hnb env t r hr
-  have hA := hass (hnb rs hprep)
-  obtain ⟨vm, hvm, hst, _⟩ := run_correct_aux hA hentry env t r hr
-  exact ⟨vm, hvm, ⟨hst.pc, fun k hk => hst.regs.get hk, fun k hk => hst.outs.get hk⟩⟩
+  intro hentry env t r hr
+  have hz : ∀ p, startPos (SecCtx.of src sec).lines = some p → addr (SecCtx.of src sec).lines p = 0 := by
+    intro p hp
+    have : startPos sec.lines = some p := hp
+    unfold entryFirst at hentry
+    rw [this] at hentry
+    show addr sec.lines p = 0
+    simpa using hentry
+  obtain ⟨vm, hvm, hst, _⟩ := run_correct_zero hA hz env t r hr
+  exact ⟨vm, hvm, obs_of_stsim hst⟩
+
+/-! ### several processors -/
+
+/-- COMPOSITION of the network reference (`netRun`: every processor's `refStep` on its section,
+    ports joined as the source's `ioatt` pairs say): seen from processor `p`, the run of the whole
+    machine is a run of the reference interpreter on `p`'s section under the environment the bonds
+    induce.  (`netRun` is a function: the network reference is deterministic by construction.) -/
+theorem network_component (ctxs : List SecCtx) (net : List (Topology.Bond × Topology.Bond)) (ext : Nat → ExtEnv)
+    (t : Nat) (sts : List RefState) (h : netRun ctxs net ext t = some sts) :
+    sts.length = ctxs.length ∧
+    ∀ (p : Nat) (c : SecCtx), ctxs[p]? = some c →
+      ∃ s, sts[p]? = some s ∧ refRun c (inducedEnv ctxs net ext p) t = some s :=
+  net_component ctxs net ext t sts h
+
+/-- … hence every processor of the assembled machine, run by the simulator on its ROM under the
+    environment the network induces on its ports, does what the network reference says of it.
+    (That `bondmachine.VM.Step` moves data between processors as `envFor` says is not proved here:
+    it is C02/C04's matter and is compared per tick by the whole-machine tie.) -/
+theorem network_correct (src : Source) (bm : BM) (h : assemble src true = .ok bm)
+    (p : Nat) (c : CpDef) (cp : CP) (hc : src.procs[p]? = some c) (hcp : bm.cps[p]? = some cp) :
+    ∃ sec ∈ src.sections, sec.name = c.romcode ∧
+      ∀ (ctxs : List SecCtx) (net : List (Topology.Bond × Topology.Bond)) (ext : Nat → ExtEnv),
+        ctxs[p]? = some (SecCtx.of src sec) →
+        ∀ (e0 : Env) (t : Nat) (sts : List RefState), netRun ctxs net ext t = some sts →
+          ∃ s vm, sts[p]? = some s ∧
+            isaRun cp.arch cp.prog (entryEnv sec.lines e0 (inducedEnv ctxs net ext p)) (t + entryDelay sec.lines) = some vm ∧
+            ObsEq cp.arch sec.lines (entryDelay sec.lines) s vm := by
+  obtain ⟨sec, hsec, hname, hrun⟩ := assemble_correct src bm h p c cp hc hcp
+  refine ⟨sec, hsec, hname, ?_⟩
+  intro ctxs net ext hctx e0 t sts hnet
+  obtain ⟨_, hcomp⟩ := net_component ctxs net ext t sts hnet
+  obtain ⟨s, hs, hr⟩ := hcomp p _ hctx
+  obtain ⟨vm, hvm, hobs⟩ := hrun e0 _ t s hr
+  exact ⟨s, vm, hs, hvm, hobs⟩
 
 /-! ### the `entry` directive on the unchanged tree -/
 
@@ -170,7 +259,7 @@ theorem entry_honoured_example :
 
 /-! ### non-vacuity -/
 
-/-- a source meeting every hypothesis of `assemble_correct_partial`, with labels, both jump kinds,
+/-- a source with labels, both jump kinds,
     `mov` in three of its meanings, an input and an output -/
 def demoSrc : Source :=
   { rsize := some 8, iomode := some .async,
@@ -189,10 +278,41 @@ def demoEnv : Nat → Env := fun t => { inputs := fun _ => if t < 3 then 0 else 
 
 example : (assemble demoSrc false).toOption.isSome = true := by decide
 example : (demoSrc.sections.map fun s => entryFirst s.lines) = [true] := by decide
-example : (demoSrc.sections.map fun s => (match prepSection false demoSrc.iomode s with
-    | .ok rs => rs.all (fun r => r.op != "i2rw" && r.op != "r2owa") | .error _ => false)) = [true] := by decide
+example : (assemble demoSrc true).toOption.isSome = true := by decide
 -- the reference interpreter really runs (reads 0 three times, then 3; sums 3+2+1 into r0 / o0)
 example : ((refRun (SecCtx.of demoSrc (demoSrc.sections.headD default)) demoEnv 20).map fun r => (r.regs 0, r.outputs 0, r.pos)) =
     some (6, 6, 1) := by decide
+
+
+/-- blocking IO and an entry label that is not first (and a label written on the directive): the
+    case `assemble_correct` needs its extra tick and its address shift for -/
+def demoSync : Source :=
+  { rsize := some 8, iomode := some .sync,
+    sections := [{ name := "prog", lines :=
+      [ { labels := ["here"], op := "entry", args := [.sym "go"] },
+        { op := "clr", args := [.reg 1] },
+        { labels := ["go"], op := "mov", args := [.reg 0, .inp 0] },
+        { op := "mov", args := [.out 0, .reg 0] },
+        { op := "inc", args := [.reg 1] },
+        { op := "j", args := [.sym "here"] } ] }],
+    cps := [{ name := "cpu", romcode := "prog" }] }
+
+def syncSec : Section := demoSync.sections.headD default
+def syncEnv : Nat → Env := fun t =>
+  { inputs := fun _ => 7 + t, inValid := fun _ => t % 4 == 1 || t % 4 == 2, outRecv := fun _ => t % 3 == 2 }
+def syncCp : CP := match assemble demoSync true with | .ok bm => bm.cps.headD default | .error _ => default
+def anyEnv : Env := { inputs := fun _ => 99, inValid := fun _ => true, outRecv := fun _ => true }
+
+example : romOf (assemble demoSync true) = ["011010", "000100", "001000", "100000", "010100", "011001"] := by decide
+example : entryDelay syncSec.lines = 1 := by decide
+-- eight ticks of the reference interpreter: one i2rw transfer (wait, take 8, withdraw recv), one
+-- r2owa transfer (raise valid, wait for recv, drop valid), `inc`
+example : ((refRun (SecCtx.of demoSync syncSec) syncEnv 8).map fun r =>
+    [addr syncSec.lines r.pos, r.regs 0, r.regs 1, r.outputs 0, (r.outValid 0).toNat, (r.inRecv 0).toNat] ++ r.deferred) =
+    some [0, 8, 1, 8, 0, 0] := by decide
+-- … and the simulator on the assembled ROM after 8 + 1 ticks: address 0 + 1, the same registers and port
+example : ((isaRun syncCp.arch syncCp.prog (entryEnv syncSec.lines anyEnv syncEnv) 9).map fun vm =>
+    [vm.pc] ++ vm.regs ++ vm.outputs ++ vm.outValid.map Bool.toNat ++ vm.inRecv.map Bool.toNat ++ vm.deferred) =
+    some [1, 8, 1, 8, 0, 0] := by decide
 
 end BMV.Props.C05
